@@ -244,6 +244,7 @@ type vC02SObs struct {
 	Deltas []vc02DeltaObs   `json:"deltas"`
 	Reps   [][]vc02SStepObs `json:"reps"`
 	Err    string           `json:"err,omitempty"`
+	Panic  string           `json:"panic,omitempty"`
 }
 
 func vc02KeyOf(c cid.Cid) string {
@@ -762,12 +763,34 @@ func TestVerifC02Set(t *testing.T) {
 		go func(i int) {
 			defer wg.Done()
 			defer func() { <-sem }()
+			key := fmt.Sprintf("s%d", i)
+			vCaseStartKey(key, cases[i])
+			defer vCaseDoneKey(key)
+			defer func() { // a panic of the code under test on this goroutine: reported with the case, the others go on
+				if vc02NoRecover {
+					return
+				}
+				if r := recover(); r != nil {
+					results[i] = vC02SObs{Panic: fmt.Sprint(r)}
+				}
+			}()
 			results[i] = vC02SRun(t, cases[i])
 		}(i)
 	}
 	wg.Wait()
+	nPanic := 0
 	for i, c := range cases {
 		obs := results[i]
+		if obs.Panic != "" {
+			out.count("panic")
+			if nPanic++; nPanic <= 2 {
+				b, _ := json.Marshal(map[string]interface{}{"signature": "panic-in-code-under-test", "detail": obs.Panic,
+					"harness": "TestVerifC02Set", "case": map[string]interface{}{"input": c},
+					"meaning": "dsstate / go-ds-crdt panicked while this case ran (recovered by the harness)"})
+				fmt.Printf("VERIF-DIRECT-VIOLATION %s\n", b)
+			}
+			continue
+		}
 		if obs.Err != "" {
 			b, _ := json.Marshal(c)
 			t.Fatalf("case %d: %s (input %s)", i, obs.Err, b)
